@@ -7,6 +7,7 @@ One JSON object per input line, one JSON object per output line.
 
 Stateless ops
 * `{"op":"ids","cls":CLS}` → `{"ids":[[ver,obj,NAME]…],"selfVer":n}`
+* `{"op":"idsx","cls":CLS,"aliases":[[obj,ATTR,ver]…]}` → `{"ids":[…]}` (class with aliases / private methods, finding D86)
 * `{"op":"table","cls":CLS,"enabled":e}` → `{"table":[[obj,ORIG,NAME,id|null]…]}` (in `keys` order)
 
 Node ops (one current node)
@@ -127,6 +128,14 @@ def field (j : Json) (k : String) : Except String Json := j.getObjVal? k
 def step (st : St) (j : Json) : Except String (St × Json) := do
   let op ← (← field j "op").getStr?
   match op with
+  | "idsx" =>
+    -- class with aliases / private methods: {"op":"idsx","cls":CLS,"aliases":[[obj,ATTR,ver]…]} → {"ids":[…]}
+    let cls ← jCls (← field j "cls")
+    let al ← (← jArr (← field j "aliases")).toList.mapM fun a => do
+      let x ← jArr a
+      if x.size != 3 then throw "alias: need 3 fields"
+      return (⟨← jNat x[0]!, ← jName x[1]!, ← jNat x[2]!⟩ : Alias)
+    return (st, Json.mkObj [("ids", Json.arr ((idToMethodX ⟨cls, al⟩).map desc).toArray)])
   | "ids" =>
     let cls ← jCls (← field j "cls")
     return (st, Json.mkObj [("ids", Json.arr ((idToMethod cls).map desc).toArray),
